@@ -1,8 +1,7 @@
 /-
 One submission: the announcement applied to the previous best chain gives the new best chain.
 -/
-import BRV.Proofs.RepoStream
-import BRV.Proofs.Longest
+import BRV.Proofs.RepoNoError
 
 namespace BRV.Repo
 
@@ -11,8 +10,10 @@ def forked (r : Repo) (h : Hdr) (ph : Int) (nb : Branch) : Repo :=
   { r with arena := r.arena ++ [nb], branches := r.branches ++ [r.arena.length], heights := r.heights.set h.id (ph + 1) }
 
 inductive Outcome (r1 : Repo) (single : List Hdr) : Repo × StepOut → Prop
-  | crash (m : String) : Outcome r1 single (r1, { verdict := .panic m })
-  | sendErr (evs : List Hdr) (e : String) : Outcome r1 single (r1, { verdict := .err e, events := evs })
+  | crash (m : String) (hr : reselect r1 = .error (r1, { verdict := .panic m })) :
+      Outcome r1 single (r1, { verdict := .panic m })
+  | sendErr (evs : List Hdr) (e : String) (hr : reselect r1 = .error (r1, { verdict := .err e, events := evs })) :
+      Outcome r1 single (r1, { verdict := .err e, events := evs })
   | stay : Outcome r1 single (r1, { verdict := .ok, events := single })
   | switch (lg : Nat) (evs : List Hdr) (hne : lg ≠ r1.longest) (hmem : lg ∈ r1.branches)
       (hr : reselect r1 = .ok ({ r1 with longest := lg }, true, evs)) :
@@ -27,8 +28,8 @@ theorem fork_outcome (r : Repo) (h : Hdr) (pb : Nat) (ph : Int) (nb : Branch)
   unfold forked at hc ⊢
   generalize hres : reselect _ = res at hc ⊢
   cases hc with
-  | crash m => exact .crash m
-  | sendErr evs e => exact .sendErr evs e
+  | crash m => exact .crash m hres
+  | sendErr evs e => exact .sendErr evs e hres
   | stay => exact .stay
   | switch lg evs hne hlg => exact .switch lg evs hne (longestOf_spec _ _ _ hlg).1 hres
 
@@ -53,8 +54,8 @@ theorem extend_outcome_side (r : Repo) (h : Hdr) (pb : Nat) (ph : Int) (lst : HD
   have hc := reselect_cases (addToBranch r h pb ph lst w)
   generalize hres : reselect _ = res at hc ⊢
   cases hc with
-  | crash m => exact .crash m
-  | sendErr evs e => exact .sendErr evs e
+  | crash m => exact .crash m hres
+  | sendErr evs e => exact .sendErr evs e hres
   | stay =>
     simp only [hl, hpl, ↓reduceIte]
     exact .stay
@@ -110,14 +111,12 @@ theorem isChain_extend (r : Repo) (hs : StreamWF r) (h : Hdr) (ph : Int) (lst : 
     rw [e]; exact this
 
 /-- **one submission: the announcement rebuilds the best chain.** In a repository reached by
-    submissions from genesis, for ANY submitted header and ANY outcome other than the internal
-    branch-update error: applying the headers announced by `ProcessHeader` to the best chain before
+    submissions from genesis, for ANY submitted header and ANY outcome: applying the headers announced by `ProcessHeader` to the best chain before
     the submission gives exactly the best chain after it (nothing announced ⇒ unchanged; one header
     on extension; the new chain above the fork point on a reorganisation). -/
 theorem stream_step (r : Repo) (h : Hdr) (ok : Bool) (hs : StreamWF r)
     (hnc : ∀ pb ph lst, precheck r h ok = .inr (pb, ph, lst) →
       Int.tmod ((r.br pb).height + 1) (Facts.autoCleanModulus : Int) ≠ 0)
-    (hv : ∀ e, (processHeader r h ok).2.verdict ≠ .err e)
     (cOld cNew : List Hdr) (hold : IsChain r.arena r.longest cOld)
     (hnew : IsChain (processHeader r h ok).1.arena (processHeader r h ok).1.longest cNew) :
     Spec.applyStream cOld (processHeader r h ok).2.events = cNew := by
@@ -134,10 +133,10 @@ theorem stream_step (r : Repo) (h : Hdr) (ok : Bool) (hs : StreamWF r)
     obtain ⟨pb, ph, lst⟩ := x
     have hpass := precheck_inr r h ok pb ph lst hpc
     have hnc' := hnc pb ph lst hpc
-    rw [processHeader_of_inr r h ok pb ph lst hpc] at hnew hF hv ⊢
-    unfold applyHeader at hnew hF hv ⊢
+    rw [processHeader_of_inr r h ok pb ph lst hpc] at hnew hF ⊢
+    unfold applyHeader at hnew hF ⊢
     by_cases hf : lst.hdr.id ≠ h.prev
-    · simp only [hf, ne_eq, not_false_eq_true, ↓reduceIte] at hnew hF hv ⊢
+    · simp only [hf, ne_eq, not_false_eq_true, ↓reduceIte] at hnew hF ⊢
       cases hn : newBranch r (some pb) ph h with
       | error v =>
         have e : forkHeader r h pb ph = (r, { verdict := v }) := by unfold forkHeader; rw [hn]
@@ -153,15 +152,18 @@ theorem stream_step (r : Repo) (h : Hdr) (ok : Bool) (hs : StreamWF r)
             (by intro k d hd
                 show atH (r.arena ++ [nb]) r.longest k = some d
                 rw [atH_append r.arena hw.dec nb r.longest holdlt]; exact hd)
-        generalize forkHeader r h pb ph = res at hout hnew hF hv
+        have hlv1 : (forked r h ph nb).longest < (forked r h ph nb).arena.length := by
+          show r.longest < (r.arena ++ [nb]).length
+          simp only [List.length_append, List.length_cons, List.length_nil]; omega
+        generalize forkHeader r h pb ph = res at hout hnew hF
         cases hout with
-        | crash m => exact isChain_unique _ _ _ _ hold1 hnew
-        | sendErr evs e => exact absurd rfl (hv e)
+        | crash m hr => exact absurd hr (reselect_never_fails _ hF hlv1 _)
+        | sendErr evs e hr => exact absurd hr (reselect_never_fails _ hF hlv1 _)
         | stay => exact isChain_unique _ _ _ _ hold1 hnew
         | switch lg evs hne hmem hr =>
           have hs1 : StreamWF (forked r h ph nb) := by refine streamWF_congr _ _ ?_ ?_ ?_ hF <;> rfl
           exact reselect_reorg_stream (forked r h ph nb) hs1.chain _ evs hs1.below hr cOld cNew hold1 hnew
-    · simp only [hf, ↓reduceIte] at hnew hF hv ⊢
+    · simp only [hf, ↓reduceIte] at hnew hF ⊢
       have hprev : lst.hdr.id = h.prev := by simpa using hf
       cases hbw : Work.blockWork h.bits with
       | none =>
@@ -223,14 +225,186 @@ theorem stream_step (r : Repo) (h : Hdr) (ok : Bool) (hs : StreamWF r)
                   simp only
                   refine atH_set_extend r.arena hw.dec pb (r.br pb) _ { hdr := h, work := lst.work + w } hbr
                     ?_ ?_ ?_ ?_ r.longest k d hd <;> rfl)
-          generalize extendHeader r h pb ph lst = res at hout hnew hF hv
+          have hlv1 : (addToBranch r h pb ph lst w).longest < (addToBranch r h pb ph lst w).arena.length := by
+            unfold addToBranch Repo.setBranch
+            simp only [List.length_set]; exact holdlt
+          generalize extendHeader r h pb ph lst = res at hout hnew hF
           cases hout with
-          | crash m => exact isChain_unique _ _ _ _ hold1 hnew
-          | sendErr evs e => exact absurd rfl (hv e)
+          | crash m hr => exact absurd hr (reselect_never_fails _ hF hlv1 _)
+          | sendErr evs e hr => exact absurd hr (reselect_never_fails _ hF hlv1 _)
           | stay => exact isChain_unique _ _ _ _ hold1 hnew
           | switch lg evs hne hmem hr =>
             have hs1 : StreamWF (addToBranch r h pb ph lst w) := by refine streamWF_congr _ _ ?_ ?_ ?_ hF <;> rfl
             exact reselect_reorg_stream (addToBranch r h pb ph lst w) hs1.chain _ evs hs1.below hr cOld cNew hold1 hnew
+
+/-! ### a header that passes every check is accepted -/
+
+/-- **no internal failure after the checks.** In a repository reached by submissions from genesis,
+    a header that passes `precheck` is added and the answer is `ok`: the new branch finds its parent
+    header, the work conversion succeeds, and the reselection of the most-work branch cannot fail. -/
+theorem passed_verdict_ok (r : Repo) (h : Hdr) (ok : Bool) (hs : StreamWF r) (hlv : r.longest < r.arena.length)
+    (hnc : ∀ pb ph lst, precheck r h ok = .inr (pb, ph, lst) →
+      Int.tmod ((r.br pb).height + 1) (Facts.autoCleanModulus : Int) ≠ 0)
+    (pb : Nat) (ph : Int) (lst : HData) (hpc : precheck r h ok = .inr (pb, ph, lst)) :
+    (processHeader r h ok).2.verdict = .ok := by
+  have hF := streamWF_processHeader r h ok hs hnc
+  have hw := hs.chain.wf.link
+  have hpass := precheck_inr r h ok pb ph lst hpc
+  have hnc' := hnc pb ph lst hpc
+  obtain ⟨w, hbw⟩ : ∃ w, Work.blockWork h.bits = some w := by
+    have := Work.convertToDifficulty_some_of_valid h.bits hpass.bitsOk
+    obtain ⟨d, hd⟩ := Option.isSome_iff_exists.mp this
+    exact ⟨_, by unfold Work.blockWork; rw [hd]; rfl⟩
+  rw [processHeader_of_inr r h ok pb ph lst hpc] at hF ⊢
+  unfold applyHeader at hF ⊢
+  by_cases hf : lst.hdr.id ≠ h.prev
+  · simp only [hf, ne_eq, not_false_eq_true, ↓reduceIte] at hF ⊢
+    -- the new branch is created
+    have hown := branchesFind_owner r hw hs.chain.wf.ids hs.chain.wf.list h.prev pb ph hpass.parent
+    obtain ⟨d, hd, hid⟩ := heldAt_atH r.arena hw pb h.prev ph hown
+    have hpb : pb < r.arena.length := atHeight_some_lt _ _ _ _ _ hd
+    have hat : r.at pb ph = some d := by rw [Repo.at_eq_atH r hw.dec pb hpb]; exact hd
+    obtain ⟨nb, hn⟩ : ∃ nb, newBranch r (some pb) ph h = .ok nb := by
+      unfold newBranch
+      simp only [hat, hid, ne_eq, not_true_eq_false, ↓reduceIte, hbw]
+      exact ⟨_, rfl⟩
+    have hout := fork_outcome r h pb ph nb hn
+    have hlv1 : (forked r h ph nb).longest < (forked r h ph nb).arena.length := by
+      show r.longest < (r.arena ++ [nb]).length
+      simp only [List.length_append, List.length_cons, List.length_nil]; omega
+    generalize forkHeader r h pb ph = res at hout hF
+    cases hout with
+    | crash m hr => exact absurd hr (reselect_never_fails _ hF hlv1 _)
+    | sendErr evs e hr => exact absurd hr (reselect_never_fails _ hF hlv1 _)
+    | stay => rfl
+    | switch lg evs hne hmem hr => rfl
+  · simp only [hf, ↓reduceIte] at hF ⊢
+    by_cases hpl : pb = r.longest
+    · subst hpl
+      rw [extend_outcome_longest r h ph lst w hbw hpass.lastIs hnc']
+    · have hout := extend_outcome_side r h pb ph lst w hbw hpass.lastIs hpl hnc'
+      have hlv1 : (addToBranch r h pb ph lst w).longest < (addToBranch r h pb ph lst w).arena.length := by
+        unfold addToBranch Repo.setBranch
+        simp only [List.length_set]; exact hlv
+      generalize extendHeader r h pb ph lst = res at hout hF
+      cases hout with
+      | crash m hr => exact absurd hr (reselect_never_fails _ hF hlv1 _)
+      | sendErr evs e hr => exact absurd hr (reselect_never_fails _ hF hlv1 _)
+      | stay => rfl
+      | switch lg evs hne hmem hr => rfl
+
+/-- what the state looks like after a header passed the checks: the forest, the branch list and the
+    heights map are those of `forked` (new branch) or of `addToBranch` (extension). -/
+theorem passed_state (r : Repo) (h : Hdr) (ok : Bool) (hs : StreamWF r) (hlv : r.longest < r.arena.length)
+    (hnc : ∀ pb ph lst, precheck r h ok = .inr (pb, ph, lst) →
+      Int.tmod ((r.br pb).height + 1) (Facts.autoCleanModulus : Int) ≠ 0)
+    (pb : Nat) (ph : Int) (lst : HData) (hpc : precheck r h ok = .inr (pb, ph, lst)) :
+    ∃ r1 : Repo, ((∃ nb, newBranch r (some pb) ph h = .ok nb ∧ r1 = forked r h ph nb) ∨
+        (∃ w, Work.blockWork h.bits = some w ∧ lst.hdr.id = h.prev ∧ r1 = addToBranch r h pb ph lst w)) ∧
+      (processHeader r h ok).1.arena = r1.arena ∧ (processHeader r h ok).1.branches = r1.branches ∧
+      (processHeader r h ok).1.heights = r1.heights ∧
+      (processHeader r h ok).1.disableDifficulty = r.disableDifficulty := by
+  have hF := streamWF_processHeader r h ok hs hnc
+  have hw := hs.chain.wf.link
+  have hpass := precheck_inr r h ok pb ph lst hpc
+  have hnc' := hnc pb ph lst hpc
+  obtain ⟨w, hbw⟩ : ∃ w, Work.blockWork h.bits = some w := by
+    have := Work.convertToDifficulty_some_of_valid h.bits hpass.bitsOk
+    obtain ⟨d, hd⟩ := Option.isSome_iff_exists.mp this
+    exact ⟨_, by unfold Work.blockWork; rw [hd]; rfl⟩
+  rw [processHeader_of_inr r h ok pb ph lst hpc] at hF ⊢
+  unfold applyHeader at hF ⊢
+  by_cases hf : lst.hdr.id ≠ h.prev
+  · simp only [hf, ne_eq, not_false_eq_true, ↓reduceIte] at hF ⊢
+    have hown := branchesFind_owner r hw hs.chain.wf.ids hs.chain.wf.list h.prev pb ph hpass.parent
+    obtain ⟨d, hd, hid⟩ := heldAt_atH r.arena hw pb h.prev ph hown
+    have hpb : pb < r.arena.length := atHeight_some_lt _ _ _ _ _ hd
+    have hat : r.at pb ph = some d := by rw [Repo.at_eq_atH r hw.dec pb hpb]; exact hd
+    obtain ⟨nb, hn⟩ : ∃ nb, newBranch r (some pb) ph h = .ok nb := by
+      unfold newBranch
+      simp only [hat, hid, ne_eq, not_true_eq_false, ↓reduceIte, hbw]
+      exact ⟨_, rfl⟩
+    have hout := fork_outcome r h pb ph nb hn
+    have hlv1 : (forked r h ph nb).longest < (forked r h ph nb).arena.length := by
+      show r.longest < (r.arena ++ [nb]).length
+      simp only [List.length_append, List.length_cons, List.length_nil]; omega
+    refine ⟨forked r h ph nb, Or.inl ⟨nb, hn, rfl⟩, ?_⟩
+    generalize forkHeader r h pb ph = res at hout hF
+    cases hout with
+    | crash m hr => exact absurd hr (reselect_never_fails _ hF hlv1 _)
+    | sendErr evs e hr => exact absurd hr (reselect_never_fails _ hF hlv1 _)
+    | stay => exact ⟨rfl, rfl, rfl, rfl⟩
+    | switch lg evs hne hmem hr => exact ⟨rfl, rfl, rfl, rfl⟩
+  · simp only [hf, ↓reduceIte] at hF ⊢
+    have hprev : lst.hdr.id = h.prev := by simpa using hf
+    refine ⟨addToBranch r h pb ph lst w, Or.inr ⟨w, hbw, hprev, rfl⟩, ?_⟩
+    by_cases hpl : pb = r.longest
+    · subst hpl
+      rw [extend_outcome_longest r h ph lst w hbw hpass.lastIs hnc']
+      exact ⟨rfl, rfl, rfl, rfl⟩
+    · have hout := extend_outcome_side r h pb ph lst w hbw hpass.lastIs hpl hnc'
+      have hlv1 : (addToBranch r h pb ph lst w).longest < (addToBranch r h pb ph lst w).arena.length := by
+        unfold addToBranch Repo.setBranch
+        simp only [List.length_set]; exact hlv
+      generalize extendHeader r h pb ph lst = res at hout hF
+      cases hout with
+      | crash m hr => exact absurd hr (reselect_never_fails _ hF hlv1 _)
+      | sendErr evs e hr => exact absurd hr (reselect_never_fails _ hF hlv1 _)
+      | stay => exact ⟨rfl, rfl, rfl, rfl⟩
+      | switch lg evs hne hmem hr => exact ⟨rfl, rfl, rfl, rfl⟩
+
+/-- a header held by a listed branch is found by `Branches.Find`. -/
+theorem branchesFind_of_held (r : Repo) (hi : IdWF r.arena r.branches) (bj id : Nat) (x : Int)
+    (hh : HeldAt r.arena bj id x) : (r.branchesFind id).isSome = true := by
+  obtain ⟨b, k, d, hb, hk, hid, hx⟩ := hh
+  have hlt : bj < r.arena.length := getElem?_lt _ _ _ hb
+  unfold Repo.branchesFind
+  rw [List.findSome?_isSome_iff]
+  refine ⟨bj, hi.listed bj hlt, ?_⟩
+  have hg := ((hi.exact bj b hb) id x).mpr ⟨k, d, hk, hid, hx⟩
+  unfold Repo.find Repo.fuel bfind
+  simp only [hb, hg]
+  rfl
+
+/-- **an accepted header is held afterwards** (at one above its parent's height), and so is its parent. -/
+theorem passed_then_held (r : Repo) (h : Hdr) (ok : Bool) (hs : StreamWF r) (hlv : r.longest < r.arena.length)
+    (hnc : ∀ pb ph lst, precheck r h ok = .inr (pb, ph, lst) →
+      Int.tmod ((r.br pb).height + 1) (Facts.autoCleanModulus : Int) ≠ 0)
+    (pb : Nat) (ph : Int) (lst : HData) (hpc : precheck r h ok = .inr (pb, ph, lst)) :
+    (∃ bj, HeldAt (processHeader r h ok).1.arena bj h.id (ph + 1)) ∧
+    (∃ bj, HeldAt (processHeader r h ok).1.arena bj h.prev ph) := by
+  have hF := streamWF_processHeader r h ok hs hnc
+  have hw := hs.chain.wf.link
+  have hpass := precheck_inr r h ok pb ph lst hpc
+  have hown := branchesFind_owner r hw hs.chain.wf.ids hs.chain.wf.list h.prev pb ph hpass.parent
+  obtain ⟨r1, hcase, ha, hb, hh, _⟩ := passed_state r h ok hs hlv hnc pb ph lst hpc
+  rw [ha]
+  rcases hcase with ⟨nb, hn, rfl⟩ | ⟨w, hbw, hprev, rfl⟩
+  · obtain ⟨l2, w, _, _, hnb⟩ := newBranch_ok_shape r pb ph h nb hn
+    constructor
+    · refine ⟨r.arena.length, ?_⟩
+      have := heldAt_new r.arena nb { hdr := h, work := l2.work + w } (by rw [hnb]; rfl)
+      rw [hnb] at this ⊢
+      exact this
+    · exact ⟨pb, heldAt_append r.arena nb pb h.prev ph hown⟩
+  · have hlen : pb < r.arena.length := by obtain ⟨b, _, _, hb', _⟩ := hown; exact getElem?_lt _ _ _ hb'
+    have hbr : r.arena[pb]? = some (r.br pb) := by
+      unfold Repo.br; rw [List.getElem?_eq_getElem hlen]; rfl
+    -- `ph` is the height of the branch
+    have hlast : (r.br pb).headers[(r.br pb).headers.length - 1]? = some lst := getLast?_getElem? _ _ hpass.lastIs
+    have hne0 : (r.br pb).headers.length ≠ 0 := by
+      intro h0; rw [List.getElem?_eq_none (by omega)] at hlast; cases hlast
+    have hheld2 : HeldAt r.arena pb h.prev ((r.br pb).parentHeight + 1 + (((r.br pb).headers.length - 1 : Nat) : Int)) :=
+      ⟨r.br pb, _, lst, hbr, hlast, hprev, rfl⟩
+    obtain ⟨_, hph⟩ := heldAt_unique r.arena r.branches hs.chain.wf.ids pb pb h.prev _ _ hown hheld2
+    constructor
+    · refine ⟨pb, ((r.br pb).pushed { hdr := h, work := lst.work + w }), (r.br pb).headers.length,
+        { hdr := h, work := lst.work + w }, ?_, by simp, rfl, ?_⟩
+      · rw [addToBranch_arena, List.getElem?_set_self hlen]
+      · simp only; rw [hph]; omega
+    · refine ⟨pb, ?_⟩
+      rw [addToBranch_arena]
+      refine heldAt_set r.arena pb (r.br pb) _ { hdr := h, work := lst.work + w } hbr ?_ ?_ pb h.prev ph hown <;> rfl
 
 /-! ### the reported tip is a tracked branch -/
 
@@ -260,8 +434,8 @@ theorem longestValid_processHeader (r : Repo) (h : Hdr) (ok : Bool) (hs : Stream
           simp only [List.length_append, List.length_cons, List.length_nil]; omega
         generalize forkHeader r h pb ph = res at hout hF
         cases hout with
-        | crash m => exact hlv1
-        | sendErr evs e => exact hlv1
+        | crash m _ => exact hlv1
+        | sendErr evs e _ => exact hlv1
         | stay => exact hlv1
         | switch lg evs hne hmem hr => exact hF.valid lg hmem
     · simp only [hf, ↓reduceIte] at hF ⊢
@@ -281,8 +455,8 @@ theorem longestValid_processHeader (r : Repo) (h : Hdr) (ok : Bool) (hs : Stream
         · have hout := extend_outcome_side r h pb ph lst w hbw hpass.lastIs hpl hnc'
           generalize extendHeader r h pb ph lst = res at hout hF
           cases hout with
-          | crash m => exact hlv1
-          | sendErr evs e => exact hlv1
+          | crash m _ => exact hlv1
+          | sendErr evs e _ => exact hlv1
           | stay => exact hlv1
           | switch lg evs hne hmem hr => exact hF.valid lg hmem
 
@@ -293,30 +467,20 @@ def streamOf : Repo → List (Hdr × Bool) → List Hdr
   | _, [] => []
   | r, x :: xs => (processHeader r x.1 x.2).2.events ++ streamOf (processHeader r x.1 x.2).1 xs
 
-/-- no submission of the history triggers the automatic clean or ends in the internal
-    branch-update error (each checked at the state it is submitted to). -/
-def StreamQuiet : Repo → List (Hdr × Bool) → Prop
-  | _, [] => True
-  | r, x :: xs =>
-    (∀ e, (processHeader r x.1 x.2).2.verdict ≠ .err e) ∧
-    (∀ pb ph lst, precheck r x.1 x.2 = .inr (pb, ph, lst) →
-      Int.tmod ((r.br pb).height + 1) (Facts.autoCleanModulus : Int) ≠ 0) ∧
-    StreamQuiet (processHeader r x.1 x.2).1 xs
-
 /-- **the stream reconstructs the best chain over any history.** A subscriber that starts with
     the best chain and applies everything announced during ANY finite history of submissions holds
     exactly the chain the repository reports afterwards. -/
 theorem stream_history (r : Repo) (hs : List (Hdr × Bool)) (hwf : StreamWF r) (hlv : r.longest < r.arena.length)
-    (hq : StreamQuiet r hs) (c0 : List Hdr) (h0 : IsChain r.arena r.longest c0) :
+    (hq : NoAutoClean r hs) (c0 : List Hdr) (h0 : IsChain r.arena r.longest c0) :
     IsChain (submitAll r hs).arena (submitAll r hs).longest (Spec.applyStream c0 (streamOf r hs)) := by
   induction hs generalizing r c0 with
   | nil => exact h0
   | cons x xs ih =>
-    obtain ⟨hv, hnc, hq'⟩ := hq
+    obtain ⟨hnc, hq'⟩ := hq
     have hwf' := streamWF_processHeader r x.1 x.2 hwf hnc
     have hlv' := longestValid_processHeader r x.1 x.2 hwf hlv hnc
     obtain ⟨c1, hc1⟩ := isChain_exists _ hwf'.chain _ _ (List.getElem?_eq_getElem hlv')
-    have hstep := stream_step r x.1 x.2 hwf hnc hv c0 c1 h0 hc1
+    have hstep := stream_step r x.1 x.2 hwf hnc c0 c1 h0 hc1
     simp only [submitAll, List.foldl_cons, streamOf]
     unfold Spec.applyStream
     rw [List.foldl_append]
